@@ -454,7 +454,7 @@ func (c *Client) stepUnderFailure(op adapt.Op, got adapt.Outcome) []Diff {
 	if got.Class == adapt.ClsNotImpl {
 		return nil // the SDK v1 adapter has no BatchGetItem at all
 	}
-	if op.Kind == adapt.OpBatchWrite && got.Class == adapt.ClsValidation {
+	if op.Kind == adapt.OpBatchWrite && (got.Class == adapt.ClsValidation || got.Class == adapt.ClsParam) {
 		// a request that breaks the batch rules (more than 25 writes, a write request that is neither or both
 		// put and delete) is refused by the client-side input validation before the failure condition is
 		// consulted - as the SDK / the service do; the configured error is equally admissible
